@@ -268,6 +268,11 @@ func (p *ParserZH) consume(validTypes ...uint8) {
 func (p *ParserZH) expectBlockIndent() (bool, int) {
 	var peekLine = p.StartLineIdxP2
 	var currLine = p.StartLineIdxP1
+	// a header whose last line begins inside a text (or comment) spanning lines: that line
+	// has no indentation of its own, the header is indented as the line the text began on
+	for currLine > 0 && p.GetLineInfo(currLine).Continued {
+		currLine--
+	}
 
 	var peekIndent = p.GetLineInfo(peekLine).Indents
 	var currIndent = p.GetLineInfo(currLine).Indents
